@@ -770,3 +770,6 @@ def run(ctx):
     # the small accessors and pass-through wrappers the rules above look through by name return what their names say (rules/accessors.py)
     from rules import accessors as _acc
     _acc.rule_accessors(ctx, "C18")
+    # the stream this property talks about is all-or-nothing: generate_dump succeeds only if its writer returned Ok (rules/c01.py rule_hard_streams)
+    from rules import c01 as _c01h
+    _c01h.rule_hard_streams(ctx, R="C18/hard-streams", only=('systeminfo_stream::write', 'memory_info_list_stream::write'))
